@@ -129,31 +129,104 @@ def subst(m, args, hs, macros):
     for x in res: x.hs = x.hs | hs
     return res
 
+def _eval_if(text, macros):
+    """value of a #if / #elif controlling expression (the subset the corpus uses: integer literals, macro names,
+    defined X / defined(X), ! && || == != < > <= >= + - * and parentheses; remaining identifiers are 0)"""
+    ts = lex(text)
+    out, i = [], 0
+    while i < len(ts):                       # defined is evaluated before macro replacement (6.10.1p4)
+        if ts[i].v == "defined":
+            if ts[i + 1].v == "(":
+                name, i = ts[i + 2].v, i + 4
+            else:
+                name, i = ts[i + 1].v, i + 2
+            out.append(T("1" if name in macros else "0"))
+        else:
+            out.append(ts[i])
+            i += 1
+    ex = expand(out, macros)
+    py = []
+    for t in ex:
+        v = t.v
+        if is_ident(v):
+            v = "0"
+        elif re.match(r"[0-9]+[uUlL]*$", v):
+            v = str(int(re.match(r"[0-9]+", v).group(0)))
+        elif v == "&&":
+            v = " and "
+        elif v == "||":
+            v = " or "
+        elif v == "!":
+            v = " not "
+        elif v not in ("(", ")", "==", "!=", "<", ">", "<=", ">=", "+", "-", "*"):
+            raise ValueError("unsupported token in #if: %r" % v)
+        py.append(v)
+    return int(bool(eval(" ".join(py), {"__builtins__": {}}, {})))
+
+
 def preprocess(src):
     macros, out = {}, []
     pending = []
+    stack = []            # per open #if: [this group active, some group already taken, enclosing active]
+
+    def active():
+        return all(f[0] for f in stack)
+
+    def flush():
+        if pending:
+            out.extend(expand(list(pending), macros))
+            del pending[:]
     for line in src.split("\n"):
         s = line.strip()
-        if s.startswith("#define"):
-            if pending: out.extend(expand(pending, macros)); pending = []
-            m = re.match(r'#define\s+([A-Za-z_]\w*)', s)
-            name = m.group(1)
-            rest = s[m.end():]
-            params = None
-            if rest.startswith("("):
-                close = rest.index(")")
-                plist = rest[1:close]
-                params = [p.strip() for p in plist.split(",")] if plist.strip() else []
-                body = rest[close + 1:]
+        if s.startswith("#"):
+            flush()
+            d = s[1:].strip()
+            word = re.match(r"[a-z]*", d).group(0)
+            rest = d[len(word):].strip()
+            if word in ("ifdef", "ifndef", "if"):
+                if not active():
+                    stack.append([False, True, False])
+                else:
+                    c = (rest in macros) if word == "ifdef" else (rest not in macros) if word == "ifndef" else bool(_eval_if(rest, macros))
+                    stack.append([c, c, True])
+            elif word == "elif":
+                f = stack[-1]
+                if f[2] and not f[1]:
+                    f[0] = bool(_eval_if(rest, macros))
+                    f[1] = f[0]
+                else:
+                    f[0] = False
+            elif word == "else":
+                f = stack[-1]
+                f[0] = f[2] and not f[1]
+                f[1] = True
+            elif word == "endif":
+                stack.pop()
+            elif not active():
+                pass
+            elif word == "define":
+                m = re.match(r"([A-Za-z_]\w*)", rest)
+                name = m.group(1)
+                rest2 = rest[m.end():]
+                params = None
+                if rest2.startswith("("):
+                    close = rest2.index(")")
+                    plist = rest2[1:close]
+                    params = [p.strip() for p in plist.split(",")] if plist.strip() else []
+                    body = rest2[close + 1:]
+                else:
+                    body = rest2
+                b = lex(body)
+                if b:
+                    b[0].sp = False
+                macros[name] = Macro(name, params, b)
+            elif word == "undef":
+                macros.pop(rest.split()[0], None)
             else:
-                body = rest
-            b = lex(body)
-            if b: b[0].sp = False
-            macros[name] = Macro(name, params, b)
-        elif s.startswith("#undef"):
-            if pending: out.extend(expand(pending, macros)); pending = []
-            macros.pop(s.split()[1], None)
-        else:
+                raise ValueError("unsupported directive %r" % word)
+        elif active():
             pending.extend(lex(line))
-    if pending: out.extend(expand(pending, macros))
+    flush()
+    if stack:
+        raise ValueError("unterminated conditional")
     return [t.v for t in out]
